@@ -186,13 +186,13 @@ PROPS = {
                      'derive(PartialEq, Eq, Clone) of MemRegion restated as external_body glue in contracts/mem_region.vc',
                      '64-bit target (usize = u64)']},
     "C02": {
-        "units": ["bitvector", "interval_base", "interval_arith", "interval_bits", "interval_domain"],  # + "interval_domain_ops" once closed
+        "units": ["bitvector", "interval_base", "interval_arith", "interval_bits", "interval_domain", "interval_domain_ops"],
         "level_text": "Every Interval transfer function of simple_interval.rs (new, new_top, is_top, add, sub, signed_mul, int_2_comp, bitwise_not, zero_extend, subpiece_higher, subpiece_lower, subpiece, piece, adjust_end/start_to_value_in_stride, adjust_to_stride_and_remainder, contains) and the IntervalDomain layer (interval.rs, bin_ops.rs) is extracted verbatim from /repo on each run and verified by Verus against gamma/inv written from the property: the result is well-formed (start <= end, end on the stride, stride 0 exactly for singletons, widths as P-Code prescribes) and contains op(x, y) for all members x, y of the inputs, for every value and every stride with no enumeration. Unbounded in values; widths as stated per function (all widths for add/sub/neg/not/subpiece/piece/zero_extend, <= 8 bytes where the code itself switches to i64/i128 arithmetic).",
         "level_note": "Machine-arithmetic preconditions (listed per function in the evidence): `(end - start) as u64` computed on i64 in adjust_* needs stride >= 2 ==> end - start <= i64::MAX (8-byte intervals with stride >= 2 spanning more than half the range; panics in debug builds, wraps correctly in release); new/adjust_* exactness only for widths <= 64 bit. Trusted: apint and gcd contracts, vstd bit-count specs, restated derives. IntervalDomain-level functions are in unit interval_domain_ops; functions it does not cover are listed under not_covered in the evidence.",
         "design_ref": "DESIGN.md section 3 (C02)",
         "default_twins": ["c02.add", "c02.sub", "c02.signed_mul", "c02.zero_extend", "c02.piece", "c02.domain_bin_op"],
         "sweep_twins": ["c02.add", "c02.sub", "c02.signed_mul", "c02.int_2_comp", "c02.bitwise_not", "c02.zero_extend", "c02.subpiece_higher", "c02.subpiece_lower", "c02.subpiece", "c02.piece", "c02.new", "c02.adjust_end", "c02.adjust_start", "c02.adjust_to_stride_and_remainder", "c02.contains", "c02.domain_bin_op", "c02.domain_un_op", "c02.domain_cast", "c02.domain_subpiece"],
-        "not_covered": ["Display / serde impls", "std::ops::{Add,Sub,Neg} wrappers of IntervalDomain (thin delegations)"],
+        "not_covered": ["Display / serde impls", "std::ops::{Add,Sub,Neg} wrappers of IntervalDomain (one-line delegations to bin_op/un_op; the extractor pulls single functions and loses `type Output`)", "IntervalDomain::cast(PopCount|LzCount) is claimed for result widths <= 8 bytes and operand widths below 2^(8*width-1) bits only (observation: a 1-byte PopCount/LzCount of a non-constant 16-byte value yields start > end)"],
         "assumptions": ['apint 0.2.0 contracts (shim/apint.rs, shim/apint_ops.rs) and the gcd crate contract (shim/gcd.rs: returns the mathematical gcd; its divisibility properties are proved)', "vstd's specifications of u64::trailing_zeros / leading_zeros (assume_specification + axioms shipped with vstd)", 'derive-generated PartialEq/Clone of Interval, IntervalDomain, BitvectorDomain restated as structural equality / copy', 'rule R5 (a failing assert!/expect diverges); 64-bit usize; bit widths multiples of 8 (byte_w)'] + ["machine arithmetic: stride >= 2 ==> end - start <= i64::MAX in adjust_end/adjust_start/new (i64 subtraction); exactness of new/adjust_* for widths <= 64 bit"],
     },
     "C03": {
